@@ -1,6 +1,10 @@
 package props
 
 import (
+	"github.com/apache/yunikorn-core/pkg/common/configs"
+	"go.yaml.in/yaml/v3"
+	"strings"
+	"sync"
 	"verif/harness/internal/mc"
 	"verif/harness/internal/world"
 )
@@ -116,6 +120,18 @@ func monC02() mc.Monitor {
 					}
 					continue
 				}
+				// the maximum of a configured queue is what the active document says, whatever the core remembers
+				if dm, ok := confMaxOf(scn.Configs[post.Shim.Config])[q.Path]; ok {
+					counts["C02.queue-max-of-active-document"]++
+					for t, r := range d.Res {
+						if r <= 0 {
+							continue
+						}
+						if mv, limited := dm[t]; limited && pq.Allocated[t] > mv {
+							out = append(out, v("C02", "queue-above-configured-max", "document", "scheduler allocated %s (%s) in %s: usage of queue %s is now %s, the active configuration (#%d) sets its maximum to %v", d.Key, d.Res, app.Queue, q.Path, pq.Allocated, post.Shim.Config, dm))
+						}
+					}
+				}
 				if q.Max == nil {
 					continue
 				}
@@ -229,4 +245,36 @@ func monC11() mc.Monitor {
 		}
 		return out
 	}}
+}
+
+var confMaxCache sync.Map
+
+// confMaxOf returns the configured maximum of every queue of the first partition of a document (queue path -> type -> quantity).
+func confMaxOf(doc string) map[string]Res {
+	if m, ok := confMaxCache.Load(doc); ok {
+		return m.(map[string]Res)
+	}
+	out := map[string]Res{}
+	var sc configs.SchedulerConfig
+	if err := yaml.Unmarshal([]byte(doc), &sc); err == nil && len(sc.Partitions) > 0 {
+		var walk func(q *configs.QueueConfig, path string)
+		walk = func(q *configs.QueueConfig, path string) {
+			if len(q.Resources.Max) > 0 && path != "root" {
+				r := Res{}
+				for k, sv := range q.Resources.Max {
+					val, _ := refParse(sv, k == "vcore")
+					r[k] = val
+				}
+				out[path] = r
+			}
+			for i := range q.Queues {
+				walk(&q.Queues[i], path+"."+strings.ToLower(q.Queues[i].Name))
+			}
+		}
+		for i := range sc.Partitions[0].Queues {
+			walk(&sc.Partitions[0].Queues[i], strings.ToLower(sc.Partitions[0].Queues[i].Name))
+		}
+	}
+	confMaxCache.Store(doc, out)
+	return out
 }
